@@ -568,6 +568,15 @@ fn int_family<const N: usize>(cx: &mut Cx, extra: usize) {
         let mut rf = Script { data: data.clone(), pos: 0 };
         let xs: Vec<Vec<u64>> = (0..K).map(|_| wi(&Int::<N>::random(&mut rf))).collect();
         cx.call(ev("random", "NonZero<Int>::random", "nz", bits).nl("xs", &xs).s("z", "err"), || { let mut g = Script { data: data.clone(), pos: 0 }; out(&wi(&NonZero::<Int<N>>::random(&mut g).get())) });
+        let cut = if it % 2 == 0 { cx.rng.range(1, 8 * N) } else { 0 };
+        let data = stream(&mut cx.rng, N, zeros, zeros + 1, cut);
+        let mut rf = FScript { data: data.clone(), pos: 0 };
+        let mut xs = vec![];
+        while let Ok(l) = Int::<N>::try_random(&mut rf) { xs.push(wi(&l)); }
+        cx.call(ev("random", "NonZero<Int>::try_random", "nz", bits).nl("xs", &xs).s("z", "err"), || {
+            let mut g = FScript { data: data.clone(), pos: 0 };
+            match NonZero::<Int<N>>::try_random(&mut g) { Ok(n) => out(&wi(&n.get())), Err(_) => O::err("Rng") }
+        });
     }
 }
 
